@@ -23,6 +23,36 @@ def conds_state_appendHandler : List String := [
    "return nil"
   ]
 
+def stmts_state_appendHandler : List String := [
+   "{",
+   "implicitRule := &annotations.HttpRule{",
+   "Pattern: &annotations.HttpRule_Custom{",
+   "Custom: &annotations.CustomHttpPattern{",
+   "Kind: \"*\",",
+   "Path: h.method,",
+   "},",
+   "},",
+   "Body: \"*\",",
+   "}",
+   "if err := s.path.addRule(implicitRule, desc, h.method); err != nil {",
+   "return fmt.Errorf(\"[%s] implicit rule %s: %w\", desc.FullName(), implicitRule.String(), err)",
+   "}",
+   "name := string(desc.FullName())",
+   "for _, rule := range opts.httprules.getRules(name) {",
+   "if err := s.path.addRule(rule, desc, h.method); err != nil {",
+   "return fmt.Errorf(\"[%s] invalid ServiceConfig.http rule %s: %w\", desc.FullName(), rule.String(), err)",
+   "}",
+   "}",
+   "if rule := getExtensionHTTP(desc.Options()); rule != nil {",
+   "if err := s.path.addRule(rule, desc, h.method); err != nil {",
+   "return fmt.Errorf(\"[%s] invalid rule %s: %w\", desc.FullName(), rule.String(), err)",
+   "}",
+   "}",
+   "s.handlers[h.method] = append(s.handlers[h.method], h)",
+   "return nil",
+   "}"
+  ]
+
 def conds_state_removeHandler : List String := [
    "func (*state) removeHandler(cc *grpc.ClientConn) bool",
    "if !ok",
@@ -32,6 +62,32 @@ def conds_state_removeHandler : List String := [
    "if mhd != hd",
    "if len(hds) == 0",
    "return ok"
+  ]
+
+def stmts_state_removeHandler : List String := [
+   "{",
+   "cl, ok := s.conns[cc]",
+   "if !ok {",
+   "return ok",
+   "}",
+   "for _, hd := range cl.handlers {",
+   "name := hd.method",
+   "var hds []*handler",
+   "for _, mhd := range s.handlers[name] {",
+   "if mhd != hd {",
+   "hds = append(hds, mhd)",
+   "}",
+   "}",
+   "if len(hds) == 0 {",
+   "delete(s.handlers, name)",
+   "s.path.delRule(name)",
+   "} else {",
+   "s.handlers[name] = hds",
+   "}",
+   "}",
+   "delete(s.conns, cc)",
+   "return ok",
+   "}"
   ]
 
 def conds_state_addConnHandler : List String := [
@@ -140,9 +196,48 @@ def conds_path_delRule : List String := [
    "return false"
   ]
 
+def stmts_path_delRule : List String := [
+   "{",
+   "for k, s := range p.segments {",
+   "if ok := s.delRule(name); ok {",
+   "if !s.alive() {",
+   "delete(p.segments, k)",
+   "}",
+   "return ok",
+   "}",
+   "}",
+   "for i, v := range p.variables {",
+   "if ok := v.next.delRule(name); ok {",
+   "if !v.next.alive() {",
+   "p.variables = append(",
+   "p.variables[:i], p.variables[i+1:]...,",
+   ")",
+   "}",
+   "return ok",
+   "}",
+   "}",
+   "for k, m := range p.methods {",
+   "if m.name == name {",
+   "delete(p.methods, k)",
+   "return true",
+   "}",
+   "}",
+   "return false",
+   "}"
+  ]
+
 def conds_path_alive : List String := [
    "func (*path) alive() bool",
    "return p.methodAll != nil || len(p.methods) != 0 || len(p.variables) != 0 || len(p.segments) != 0"
+  ]
+
+def stmts_path_alive : List String := [
+   "{",
+   "return p.methodAll != nil ||",
+   "len(p.methods) != 0 ||",
+   "len(p.variables) != 0 ||",
+   "len(p.segments) != 0",
+   "}"
   ]
 
 end Larking.Expected.C11
